@@ -107,8 +107,45 @@ def domain(c):
     return None
 
 
-def call_kwargs(c, return_utilities=True):
-    kw = dict(c.entry.kwargs(c.ctx))
+_FIT_FLAG = {"clf": "fit_clf", "reg": "fit_reg", "ensemble": "fit_ensemble"}
+_QP = {}
+
+
+def query_params(e):
+    import inspect
+    if e.name not in _QP:
+        try:
+            _QP[e.name] = set(inspect.signature(e.cls.query).parameters)
+        except Exception:
+            _QP[e.name] = set()
+    return _QP[e.name]
+
+
+def call_kwargs(c, return_utilities=True, variant=0):
+    """variant 0: default call; 1: model passed pre-fitted with fit_*=False; 2: sample_weight given;
+    3: pre-fitted + utility_weight (where the strategy has these parameters)."""
+    e = c.entry
+    kw = dict(e.kwargs(c.ctx))
+    qp = query_params(e)
+    rng = np.random.RandomState(c.strategy_seed % (2**31 - 1))
+    flag = _FIT_FLAG.get(e.model_arg)
+    # expected-error-reduction strategies can only continue from a pre-fitted classifier through partial_fit
+    # (NotFittedError otherwise, by design): they always get fit_clf=True
+    eer = "ignore_partial_fit" in qp
+    if variant in (1, 3) and flag in qp and e.model_arg in kw and c.n_labeled >= 1 and not eer:
+        m = kw[e.model_arg]
+        try:
+            for x in (m if isinstance(m, list) else [m]):
+                x.fit(c.X, c.y)
+            kw[flag] = False
+        except Exception:
+            kw = dict(e.kwargs(c.ctx))
+    # sample weights refer to the rows of X: strategies that retrain with a candidate (EMOC, EMVR, KLDM ...) reject them
+    # for feature-row candidates, which have no weight
+    if variant == 2 and "sample_weight" in qp and (c.kind != "reg" or c.n_labeled >= 1) and c.cmode != "feat":
+        kw["sample_weight"] = np.round(rng.rand(c.n) + 0.2, 2)
+    if variant == 3 and "utility_weight" in qp and c.cmode != "feat":
+        kw["utility_weight"] = np.round(rng.rand(c.n) + 0.5, 2)
     kw.update(X=c.X.copy(), y=c.y.copy(),
               candidates=None if c.candidates is None else c.candidates.copy(),
               batch_size=c.bs, return_utilities=return_utilities)
